@@ -575,6 +575,11 @@ def evaluate__value_comparison_operators(self: XPathToken, context: ta.ContextTy
         msg = "cannot apply {} between {!r} and {!r}".format(self, *operands)
         raise self.error('XPTY0004', msg)
 
+    if self.symbol not in ('eq', 'ne') and isinstance(operands[0], AbstractDateTime) and \
+            operands[0].name in ('gYear', 'gYearMonth', 'gMonth', 'gMonthDay', 'gDay'):
+        # F&O defines only the equality for these types (the datatype classes keep the XSD order for facets)
+        raise self.error('XPTY0004', f"the values of type xs:{operands[0].name} are not ordered")
+
     if context is not None and context.timezone is not None and \
             all(isinstance(x, AbstractDateTime) for x in operands):
         # values without timezone are compared in the implicit timezone
